@@ -22,6 +22,7 @@ type gen struct {
 	tag     int
 	wide    int // percent of update calls that use operators outside the reference model's domain
 	etxn    int // percent of calls that are scripted engine-level transactions
+	last    *Op // the previous generated call (repeated verbatim now and then)
 }
 
 func newGen(r *rand.Rand) *gen {
@@ -501,7 +502,7 @@ func (g *gen) proj() bson.D {
 func (g *gen) coll() (string, string) { return pick(g.r, g.dbs...), pick(g.r, g.colls...) }
 
 func (g *gen) indexOp(db, c string) Op {
-	switch g.r.IntN(17) {
+	switch g.r.IntN(18) {
 	// the same name and key with different options: a conflicting definition must be refused
 	case 12:
 		return Op{K: "createIndex", DB: db, C: c, D: jd(bson.D{{Key: "b", Value: int32(1)}}), Unique: g.pct(50)}
@@ -512,6 +513,9 @@ func (g *gen) indexOp(db, c string) Op {
 	case 15:
 		ttl := int32(pick(g.r, 0, 60))
 		return Op{K: "createIndex", DB: db, C: c, D: jd(bson.D{{Key: "d", Value: int32(1)}}), TTL: &ttl, Unique: g.pct(30)}
+	case 17:
+		// a descending leading key
+		return Op{K: "createIndex", DB: db, C: c, D: jd(bson.D{{Key: pick(g.r, "a", "b"), Value: int32(-1)}}), Unique: g.pct(70)}
 	case 16:
 		// expiry is a single-field option
 		ttl := int32(pick(g.r, 0, 60))
@@ -532,7 +536,7 @@ func (g *gen) indexOp(db, c string) Op {
 		ttl := int32(pick(g.r, 0, 60, 3600))
 		return Op{K: "createIndex", DB: db, C: c, D: jd(bson.D{{Key: "d", Value: int32(1)}}), TTL: &ttl}
 	case 7:
-		return Op{K: "dropIndex", DB: db, C: c, Name: pick(g.r, "a_1", "t_1", "s_1_b_-1", "b_1", "o.p_1", "opx", "d_1", "nope", "_id_")}
+		return Op{K: "dropIndex", DB: db, C: c, Name: pick(g.r, "a_1", "t_1", "s_1_b_-1", "b_1", "o.p_1", "opx", "d_1", "nope", "_id_", "a_-1", "b_-1")}
 	case 8:
 		return Op{K: "dropIndexKey", DB: db, C: c, D: jd(bson.D{{Key: pick(g.r, "a", "t", "b", "d", "_id"), Value: int32(1)}})}
 	case 9:
@@ -562,11 +566,20 @@ func (g *gen) bulkItem() Op {
 
 // crud generates one driver-level call.
 func (g *gen) crud() Op {
+	if g.last != nil && g.pct(5) {
+		// the same call again (the "save" idiom, retries): the second time most writes are no-ops
+		return *g.last
+	}
 	if g.etxn > 0 && g.pct(g.etxn) {
 		db, c := g.coll()
 		return g.engineTxn(db, c)
 	}
-	return g.widen(g.crudPlain())
+	op := g.widen(g.crudPlain())
+	if op.K != "dropDB" && op.K != "dropColl" {
+		cp := op
+		g.last = &cp
+	}
+	return op
 }
 
 func (g *gen) crudPlain() Op {
